@@ -1,26 +1,42 @@
 /* C04 / C05 token-level driver: the real Message::factory -> extract_header -> Message::decode -> MessageBase::decode
-   (header, body, trailer) [-> decode_group] over the FIX42UTEST tables of header / Logon / NoMsgTypes / trailer.
-   Message = "8=FIX.4.2|9=12|35=A|" + slots + "10=ccc|":
-       X0  49=a  56=b  34=1  52=t  X1  98=0  108=3  X2 [X3 X4]
-   the six fixed tokens are the mandatory fields of header and Logon (one of them may be dropped: selector cx_drop);
-   every Xi is absent or a token whose tag is chosen from MENU (header/body/trailer tags, a tag of another message,
-   a tag outside the field table, tags == known tag mod 65536, a repeat of the preamble) with a value of 2..6 symbolic
-   bytes (tag digits + value bytes = 7, so that every token is 9 bytes wide).  The oracle is a reference acceptor over the token list and the same trait tables (codec_tables.h). */
+   (header, body, trailer) [-> decode_group] with fast_atoi, the Presence/FieldTraits hash lookups, F8MetaCntx::find_be
+   and GeneratedTable::find_ptr over the FIX42UTEST tables of header / Logon / NoMsgTypes / trailer.
+   Message = "8=FIX.4.2|9=12|35=A|" + slots + "10=ccc|" with the slots
+       X0  49=a  56=b  34=1  52=t  X1  98=0  108=3  X2 [X3 X4]        (NG > 0: X1 is  384=n G0 .. G(NG-1))
+   The six fixed tokens are the mandatory fields of header and Logon; DROP (compile time) leaves one of them out.
+   PRES / GPRES (compile time) say which Xi / Gi exist.  An existing slot is a 9-byte token: a tag chosen symbolically
+   from MENU (header/body/trailer tags, a tag of another message, a tag outside the field table, tags == known tag
+   mod 65536, a repeat of the preamble, group-element tags) '=' (7 - digits) symbolic value bytes SOH.  The layout is
+   therefore fixed per query; tags and values are symbolic.
+   TOKCUT (default): MessageBase::extract_element is cut and replaced by its contract over this token table
+   (codec_tok.h; the contract is what the C03_ext_* kernel harnesses prove about the real tokenizer).  Without TOKCUT
+   the real tokenizer runs on the bytes (thorough tier, small instances).
+   The oracle is a reference acceptor over the token list and the trait tables (codec_tables.h). */
 #ifndef NX
 #define NX 3
 #endif
+#ifndef NG
+#define NG 0               /* group tokens following 384= in slot X1 */
+#endif
 #define NEL 3
 #define VMAXB 6
-#define MAXMSG (20 + 6 * 6 + NX * 9 + 7 + 2)
-#define RMAX (6 + NX + 1)
+#define NTOK (3 + 6 + NX + NG + 1)
+#define MAXMSG (20 + 6 * 6 + (NX + NG) * 9 + 7 + 2)
+#define RMAX (NTOK + 1)
 #include "codec_world.h"
+#include "codec_tok.h"
 #ifndef PERM
 #define PERM 0
 #endif
-#ifndef NSYM
-#define NSYM 0
+#ifndef PRES
+#define PRES ((1 << NX) - 1)
 #endif
-#define SOH 1
+#ifndef GPRES
+#define GPRES ((1 << NG) - 1)
+#endif
+#ifndef DROP
+#define DROP 0
+#endif
 struct tokdef { const char *txt; uint8_t len; uint32_t num; };
 static const struct tokdef MENU[] = {
   { "50", 2, 50 },        /* 0 header optional */
@@ -29,103 +45,97 @@ static const struct tokdef MENU[] = {
   { "98", 2, 98 },        /* 3 body mandatory (repeat) */
   { "89", 2, 89 },        /* 4 trailer optional */
   { "7", 1, 7 },          /* 5 field of the schema, not of this message */
-  { "9999", 4, 9999 },    /* 6 not a field of the schema */
+  { "5000", 4, 5000 },    /* 6 not a field of the schema */
   { "65585", 5, 65585 },  /* 7 == 49 mod 65536 */
   { "65677", 5, 65677 },  /* 8 == 141 mod 65536 */
   { "35", 2, 35 },        /* 9 repeat of the preamble's MsgType */
   { "383", 3, 383 },      /* 10 body optional */
+  { "372", 3, 372 },      /* 11 group element field #1 */
+  { "385", 3, 385 },      /* 12 group element field #2 */
 };
-#define NMENU 11
+#define NMENU 13
+#ifndef MENUMASK
+#define MENUMASK 0x7ff     /* plain slots: everything but the group-element tags */
+#endif
+#ifndef GMENUMASK
+#define GMENUMASK 0x1c44   /* group slots: 372, 385, 383 and 141 (body fields: end the group), 5000 */
+#endif
 #define ABSENT 255
-/* token list in message order (fixed and chosen ones) */
-#define NTOK (6 + NX)
-static uint32_t T_num[NTOK]; static uint8_t T_on[NTOK], T_vlen[NTOK], T_val[NTOK][6]; static uint32_t T_off[NTOK], T_end[NTOK]; static int nt;
-static uint32_t o;
-static void put(uint8_t c) { __CPROVER_assume(o < MAXMSG); W_buf[o] = c; o++; }
-static void puts_(const char *s, int n) { for (int i = 0; i < n; i++) put((uint8_t)s[i]); }
-uint8_t cx_ch[NX], cx_v[NX][6], cx_drop, cx_cs[3], cx_nochk, cx_perm = PERM, cx_accept, cx_exc, cx_t2 = '=', cx_t6 = SOH;
-uint8_t cx_msg[MAXMSG]; uint32_t cx_len, cx_sum;
-static void tok_fixed(const char *tag, int tl, uint32_t num, uint8_t v, int dropped)
+uint8_t cx_ch[6], cx_v[6][6], cx_drop = DROP, cx_cs[3], cx_nochk, cx_perm = PERM, cx_accept, cx_exc, cx_gcount;
+uint8_t cx_msg[MAXMSG]; uint32_t cx_len, cx_sum; uint8_t cx_conform, cx_order_ok, cx_wrap, cx_autodup, cx_gcount_ok;
+static int nsym;
+static void tok_const(const char *tag, int tl, uint32_t num, const char *val, int vl, int on)
 {
-  T_num[nt] = num; T_on[nt] = !dropped; T_vlen[nt] = 1; T_val[nt][0] = v; T_off[nt] = o;
-  if (!dropped) { puts_(tag, tl); put('='); put(v); put(SOH); }
-  T_end[nt] = o; nt++;
+  uint8_t t[5] = { 0 }, v[7] = { 0 };
+  for (int j = 0; j < tl; j++) t[j] = (uint8_t)tag[j];
+  for (int j = 0; j < vl; j++) v[j] = (uint8_t)val[j];
+  TK_add(on, num, t, (uint8_t)tl, v, (uint8_t)vl, (uint32_t)(tl + vl + 2));
 }
-/* a chosen token occupies a slot of exactly 9 bytes at a position known when the harness is compiled (which slots are
-   present is the compile-time mask PRES; the dropped mandatory token the compile-time DROP): tag (1..5 digits) '='
-   value (7 - digits symbolic bytes, 2..6) SOH.  Only the content of the slots is symbolic, never the layout. */
-#ifndef PRES
-#define PRES ((1 << NX) - 1)
-#endif
-#define SLOTW 9
-static void tok_x(int i)
+/* a 9-byte token with symbolic value bytes; its tag is MENU[SEL[slot]] where the selector array is filled by main's case
+   split: the symbolic choice cx_ch[slot] is compared with every menu index in turn and the decoder is run once per
+   combination with that index as a constant (the symbolic executor then follows the decoder's control flow on concrete
+   tags and concrete offsets; all combinations are covered, the values, the checksum and the flags stay symbolic) */
+static uint8_t SEL[6];
+static void tok_sym(int on)
 {
-  uint8_t c = nondet_u8(), v[6];
-  for (int j = 0; j < 6; j++) { v[j] = nondet_u8(); VF_ASSUME(v[j] != SOH && v[j] != 0); }   /* string values: no separator, no NUL (C06 covers raw data) */
-  VF_ASSUME(c < NMENU);
-#ifdef MENUMASK
-  VF_ASSUME((MENUMASK >> c) & 1);
-#endif
-#ifdef FIXCH
-  if (i >= NSYM) c = FIXCH;
-#endif
-  int on = (PRES >> i) & 1;
-  cx_ch[i] = on ? c : ABSENT; for (int j = 0; j < 6; j++) cx_v[i][j] = v[j];
-  T_on[nt] = on; T_num[nt] = 0; T_vlen[nt] = 0; T_off[nt] = o;
-  if (on) {
-    for (int m = 0; m < NMENU; m++) if (c == m) {
-      int L = MENU[m].len; T_num[nt] = MENU[m].num; T_vlen[nt] = (uint8_t)(7 - L);
-      for (int j = 0; j < L; j++) W_buf[o + j] = (uint8_t)MENU[m].txt[j];
-      W_buf[o + L] = '=';
-      for (int j = 0; j < 6; j++) if (j < 7 - L) { W_buf[o + L + 1 + j] = v[j]; }
-      W_buf[o + 8] = SOH;
-    }
-    for (int j = 0; j < 6; j++) T_val[nt][j] = v[j];
-    o += SLOTW;
-  }
-  T_end[nt] = o; nt++;
+  uint8_t v[7] = { 0 }, t[5] = { 0 }; int m = SEL[nsym]; uint8_t L = MENU[m].len;
+  for (int j = 0; j < 6; j++) { v[j] = cx_v[nsym][j]; if (j >= 7 - L) v[j] = 0; }
+  for (int j = 0; j < 5; j++) t[j] = j < L ? (uint8_t)MENU[m].txt[j] : 0;
+  nsym++;
+  TK_add(on, MENU[m].num, t, L, v, (uint8_t)(7 - L), 9);
 }
 static int in_tab(const FT *t, int n, uint32_t num) { for (int i = 0; i < n; i++) if (t[i].fnum == num) return 1; return 0; }
-static int mand(const FT *t, int n, uint32_t num) { for (int i = 0; i < n; i++) if (t[i].fnum == num) return t[i].traits & 1; return 0; }
 
-int main(void)
+static int run(void)
 {
-  W_setup();
   /* ---- build the message */
-  puts_("8=FIX.4.2\001" "9=12\001" "35=A\001", 20);   /* (adjacent literals: CBMC misreads an octal escape followed by a digit) */
-#ifndef DROP
-#define DROP 0
+  tok_const("8", 1, 8, "FIX.4.2", 7, 1); tok_const("9", 1, 9, "12", 2, 1); tok_const("35", 2, 35, "A", 1, 1);
+  int first = TK_n;
+  tok_sym(PRES & 1);
+  tok_const("49", 2, 49, "a", 1, DROP != 1); tok_const("56", 2, 56, "b", 1, DROP != 2); tok_const("34", 2, 34, "1", 1, DROP != 3); tok_const("52", 2, 52, "t", 1, DROP != 4);
+#if NG > 0
+  int gtok = TK_n;
+  { uint8_t gc = nondet_u8(); VF_ASSUME(gc >= '0' && gc <= '0' + NG); cx_gcount = gc; uint8_t t[5] = { '3', '8', '4', 0, 0 }, v[7] = { gc, 0 }; TK_add(1, 384, t, 3, v, 1, 6); }
+  for (int g = 0; g < NG; g++) tok_sym((GPRES >> g) & 1);
+#else
+  tok_sym((PRES >> 1) & 1);
 #endif
-  const uint8_t drop = DROP; cx_drop = drop;            /* which mandatory token is left out (0 none): one query per value */
-  tok_x(0);
-  tok_fixed("49", 2, 49, 'a', drop == 1); tok_fixed("56", 2, 56, 'b', drop == 2); tok_fixed("34", 2, 34, '1', drop == 3); tok_fixed("52", 2, 52, 't', drop == 4);
-  tok_x(1);
-  tok_fixed("98", 2, 98, '0', drop == 5); tok_fixed("108", 3, 108, '3', drop == 6);
-  for (int i = 2; i < NX; i++) tok_x(i);
-  uint32_t body_end = o;
+  tok_const("98", 2, 98, "0", 1, DROP != 5); tok_const("108", 3, 108, "3", 1, DROP != 6);
+  for (int i = 2; i < NX; i++) tok_sym((PRES >> i) & 1);
+  int last = TK_n;                                   /* tokens first..last-1 follow the preamble */
   uint8_t c0 = nondet_u8(), c1 = nondet_u8(), c2 = nondet_u8(); VF_ASSUME(c0 >= '0' && c0 <= '9' && c1 >= '0' && c1 <= '9' && c2 >= '0' && c2 <= '9');
   cx_cs[0] = c0; cx_cs[1] = c1; cx_cs[2] = c2;
-  uint8_t t2 = '=', t6 = SOH;
-#ifdef SYMTRL
-  t2 = nondet_u8(); t6 = nondet_u8(); cx_t2 = t2; cx_t6 = t6;
-#endif
-  put('1'); put('0'); put(t2); put(c0); put(c1); put(c2); put(t6);
-  W_set_input(o); cx_len = o;
+  { uint8_t t[5] = { '1', '0', 0, 0, 0 }, v[7] = { c0, c1, c2, 0 }; TK_add(1, 10, t, 2, v, 3, 7); }
+  TK_render();
+  W_set_input(TK_len); cx_len = TK_len;
   for (int i = 0; i < MAXMSG; i++) cx_msg[i] = W_buf[i];
   W_sum = nondet_u32(); VF_ASSUME(W_sum < 256); cx_sum = W_sum;        /* the byte sum of the message (calc_chksum's contract, C07) */
-  uint8_t nochk = nondet_u8() & 1; cx_nochk = nochk;
+  uint8_t nochk = nondet_u8() & 1;
 #ifdef NOCHK
   nochk = NOCHK;
 #endif
-  /* ---- reference acceptor */
-  int conform = 1, order_ok = 1, wrap = 0, autodup = 0, region = 0, regw = 0, nexp = 0;
+  cx_nochk = nochk;
+  /* ---- reference acceptor over tokens first..last-1 */
+  int conform = 1, order_ok = 1, wrap = 0, autodup = 0, region = 0, regw = 0, nexp = 0, gcount_ok = 1;
   uint8_t seen_h[VF_N_HDR] = { 0 }, seen_b[VF_N_BODY] = { 0 }, seen_t[VF_N_TRL] = { 0 };
   for (int i = 0; i < VF_N_HDR; i++) if (vf_hdr_traits[i].fnum == 8 || vf_hdr_traits[i].fnum == 9 || vf_hdr_traits[i].fnum == 35) seen_h[i] = 1;   /* the preamble */
   uint8_t E_comp[NTOK]; int E_tok[NTOK];
-  for (int k = 0; k < NTOK; k++) if (T_on[k]) {
-    uint32_t num = T_num[k]; uint32_t w = num & 0xffff;
+  int ing = 0, nelem = 0, elem_has1 = 0, elem_has2 = 0;      /* inside the repeating group: element bookkeeping */
+  for (int k = first; k < last; k++) if (TK_on[k]) {
+    uint32_t num = TK_num[k]; uint32_t w = num & 0xffff;
     if (num > 65535) wrap = 1;
     if (num == 8 || num == 9 || num == 35) autodup = 1;
+#if NG > 0
+    if (ing && (num == 372 || num == 385)) {
+      /* group element tokens: an element starts with field #1 (372); 385 may follow inside the element; no repeats inside an element */
+      if (num == 372) { nelem++; elem_has1 = 1; elem_has2 = 0; }
+      else { if (!nelem || elem_has2) conform = 0; elem_has2 = 1; }
+      if (nelem > NEL) conform = 0;
+      E_comp[nexp] = (uint8_t)(nelem ? C_EL0 + nelem - 1 : 254); E_tok[nexp] = k; nexp++;
+      continue;
+    }
+    if (ing) { ing = 0; if (nelem != cx_gcount - '0') gcount_ok = 0; }
+#endif
     int h = in_tab(vf_hdr_traits, VF_N_HDR, num), b = in_tab(vf_body_traits, VF_N_BODY, num), t = in_tab(vf_trl_traits, VF_N_TRL, num) && num != 10;
     int r = h ? 0 : b ? 1 : t ? 2 : -1;
     if (r < 0 || r < region) conform = 0; else region = r;
@@ -136,11 +146,17 @@ int main(void)
     if (r == 1) for (int i = 0; i < VF_N_BODY; i++) if (vf_body_traits[i].fnum == num) { if (seen_b[i]) conform = 0; seen_b[i] = 1; }
     if (r == 2) for (int i = 0; i < VF_N_TRL; i++) if (vf_trl_traits[i].fnum == num) { if (seen_t[i]) conform = 0; seen_t[i] = 1; }
     E_comp[nexp] = (uint8_t)(r < 0 ? 255 : r); E_tok[nexp] = k; nexp++;
+#if NG > 0
+    if (num == 384 && k == gtok && cx_gcount != '0') { ing = 1; nelem = 0; elem_has1 = elem_has2 = 0; }
+#endif
   }
+#if NG > 0
+  if (ing && nelem != cx_gcount - '0') gcount_ok = 0;
+#endif
   for (int i = 0; i < VF_N_HDR; i++) if ((vf_hdr_traits[i].traits & 1) && !seen_h[i]) conform = 0;
   for (int i = 0; i < VF_N_BODY; i++) if ((vf_body_traits[i].traits & 1) && !seen_b[i]) conform = 0;
   int cs_ok = (c0 - '0') * 100 + (c1 - '0') * 10 + (c2 - '0') == (int)W_sum;
-  int frame_ok = t2 == '=' && t6 == SOH;
+  cx_conform = (uint8_t)conform; cx_order_ok = (uint8_t)order_ok; cx_wrap = (uint8_t)wrap; cx_autodup = (uint8_t)autodup; cx_gcount_ok = (uint8_t)gcount_ok;
 #ifdef KF_TAG_WRAP
   VF_ASSUME(!wrap);              /* known finding: tags above 65535 are reduced mod 65536 */
 #endif
@@ -150,41 +166,73 @@ int main(void)
 #ifdef KF_AUTO_DUP
   VF_ASSUME(!autodup);           /* known finding: repeated BeginString/BodyLength/MsgType tokens are skipped silently */
 #endif
-#ifdef KF_TRAILER_FRAME
-  VF_ASSUME(frame_ok);           /* known finding: the '=' and the SOH of the CheckSum field are not examined */
+#ifdef KF_GROUP_COUNT
+  VF_ASSUME(gcount_ok);          /* known finding: the NoXXX count is not compared with the number of elements decoded */
 #endif
   /* ---- run */
   struct S_class_2eFIX8_3a_3aMessage *m = vf_factory(&W_ctx, &W_from, nochk, PERM);
   int thrown = __vf_exc_pending; int kind = thrown ? W_exc_kind() : -1; __vf_exc_pending = 0;
   cx_accept = !thrown; cx_exc = (uint8_t)kind;
-  VF_ASSERT(!W_pool_exhausted && !W_rec_overflow, "harness pools large enough");
+  VF_ASSERT(!W_pool_exhausted && !W_rec_overflow && !TK_bad, "harness pools large enough, tokenizer cut consistent");
   if (!thrown) {
-    VF_ASSERT(m == (void*)&W_msg && W_msg_created == 1, "C04: the factory returns the message it created for MsgType A");
+    VF_ASSERT(m == &W_msg && W_msg_created == 1, "C04: the factory returns the message it created for MsgType A");
 #if PERM == 0
     VF_ASSERT(nochk || cs_ok, "C04: accepted only with a correct checksum");
-    VF_ASSERT(frame_ok, "C04: accepted only when the message ends with a well-formed CheckSum field 10=ddd<SOH>");
-    VF_ASSERT(conform, "C04: accepted only if every tag is legal where it appears, nothing repeats and all mandatory fields are present");
+    VF_ASSERT(conform, "C04: accepted only if every tag is legal where it appears, nothing repeats, group elements start with field #1 and all mandatory fields are present");
+    VF_ASSERT(gcount_ok, "C04: accepted only if the group count equals the number of elements");
     int same = W_nrec == nexp;
     for (int j = 0; j < NTOK; j++) if (j < nexp && j < W_nrec) {
       int k = E_tok[j]; struct W_rec_s *r = &W_rec[j];
-      if (r->comp != E_comp[j] || r->tag != T_num[k] || r->vlen != T_vlen[k]) same = 0;
-      for (int q = 0; q < 6; q++) if (q < T_vlen[k] && r->val[q] != T_val[k][q]) same = 0;
+      if (r->comp != E_comp[j] || r->tag != TK_num[k] || r->vlen != TK_vlen[k]) same = 0;
+      for (int q = 0; q < 6; q++) if (q < TK_vlen[k] && r->val[q] != TK_val[k][q]) same = 0;
       if (j > 0 && W_rec[j - 1].comp == r->comp && W_rec[j - 1].pos >= r->pos) same = 0;
     }
     VF_ASSERT(same, "C04: an accepted message retains every token: same component, tag and value text, in order");
     VF_ASSERT(vf_body_length(&W_hdr) == 12 && vf_msg_type(&W_hdr)[0] == 'A' && vf_msg_type(&W_hdr)[1] == 0, "C04: BodyLength and MsgType of the preamble are stored");
     if (!nochk) { uint8_t *cs = vf_check_sum(&W_trl); VF_ASSERT(cs[0] == c0 && cs[1] == c1 && cs[2] == c2 && cs[3] == 0, "C04: CheckSum text is stored"); }
 #endif
+#if DROP == 0
     VF_REACH();
+#endif
   } else {
     VF_ASSERT(kind >= 0, "C04: a rejected message raises one of the decoder's documented exceptions");
 #if PERM == 0
-    VF_ASSERT(!(conform && frame_ok && (nochk || cs_ok)), "C04: a conforming message with a correct checksum is accepted");
+    VF_ASSERT(!(conform && gcount_ok && (nochk || cs_ok)), "C04: a conforming message with a correct checksum is accepted");
 #endif
-    if (kind == X_BadCheckSum) VF_REACH(); else if (kind == X_DuplicateField) VF_REACH(); else if (kind == X_MissingMandatoryField) VF_REACH();
+#if DROP != 0 && PERM == 0
+    if (kind == X_MissingMandatoryField) VF_REACH();        /* a mandatory token is left out: rejection is the reachable end */
+#endif
   }
 #if PERM == 1
 #include "C05_perm.inc"
 #endif
+  return 0;
+}
+/* slot s (in message order: X0, then X1 or G0.., then X2..) -> exists?, menu mask */
+#define NS (NX + NG - (NG > 0))
+static int slot_on(int s)
+{
+#if NG > 0
+  if (s == 0) return PRES & 1; if (s <= NG) return (GPRES >> (s - 1)) & 1; return (PRES >> (s - NG + 1)) & 1;
+#else
+  return (PRES >> s) & 1;
+#endif
+}
+static uint32_t slot_mask(int s)
+{
+#if NG > 0
+  if (s >= 1 && s <= NG) return GMENUMASK;
+#endif
+  return MENUMASK;
+}
+#define LEVEL(s) for (SEL[s] = 0; SEL[s] < ((s) < NS && slot_on(s) ? NMENU : 1); SEL[s]++) if (!((s) < NS && slot_on(s)) || (cx_ch[s] == SEL[s] && ((slot_mask(s) >> SEL[s]) & 1)))
+int main(void)
+{
+  W_setup();
+  for (int s = 0; s < NS; s++) {
+    cx_ch[s] = nondet_u8(); VF_ASSUME(cx_ch[s] < NMENU);
+    for (int j = 0; j < 6; j++) { cx_v[s][j] = nondet_u8(); VF_ASSUME(cx_v[s][j] != SOH && cx_v[s][j] != 0); }   /* string values: no separator, no NUL (C06 covers raw data) */
+  }
+  LEVEL(0) LEVEL(1) LEVEL(2) LEVEL(3) LEVEL(4) LEVEL(5) { return run(); }      /* one concrete-tag run per combination; each run ends the program */
   return 0;
 }
